@@ -203,7 +203,7 @@ func init() {
 				e.close()
 			}
 		}
-		c.close([]string{"flow:start-callback", "flow:tamper", "flow:signin-post", "flow:signin-page", "flow:signout", "flow:error-page",
+		c.close([]string{"flow:start-callback", "flow:start-signed-in", "flow:callback-signed-in", "flow:tamper", "flow:signin-post", "flow:signin-page", "flow:signout", "flow:error-page",
 			"flow:xauth", "flow:forwarded", "flow:app-path", "flow:denied-error-page", "loginurl:ok", "mon:same", "mon:whitelisted", "landing:plain", "final:root", "final:absolute", "final:relative"})
 	})
 }
@@ -304,6 +304,30 @@ func e2eFlows(c *suiteCtx, e *testEnv, r *rng, s string) {
 					c.violation("HARNESS", fmt.Sprintf("tampered callback status %d", cr.Status), truncate(cr.Body, 300))
 				}
 			}
+		}
+	}
+
+	// (b2) the same endpoints in a browser that is ALREADY signed in (re-authentication, switching accounts, a stale callback
+	// link followed from the history): a start still begins a login at the identity provider, and a callback that lacks the
+	// login's CSRF cookie redirects nowhere the rules do not allow
+	{
+		ck := e.issueSessionCookie(e.sessionFor(defaultUser(), 30*time.Second))
+		q := e2eReq{method: "GET", path: prefix + "/start", queryRd: sp}
+		spec, _ := q.spec(ck)
+		if sr := e.do(spec); sr.Status == 302 {
+			c.count("flow:start-signed-in")
+			e2eLoginURLMonitor(c, e, sr.Location, ctx())
+		} else {
+			c.count(fmt.Sprintf("flow:start-signed-in-status-%d", sr.Status))
+		}
+		st := "x:" + s
+		if e.cfg.EncodeState {
+			st = base64.RawURLEncoding.EncodeToString([]byte(st))
+		}
+		cr := e.do(reqSpec{Target: prefix + "/callback?code=x&state=" + url.QueryEscape(st), Cookie: ck})
+		c.count("flow:callback-signed-in")
+		if cr.Status/100 == 3 {
+			e2eMonitor(c, e, "callback Location (signed-in browser, no CSRF cookie of that login)", cr.Location, ctx())
 		}
 	}
 
